@@ -245,7 +245,7 @@ pub fn simple(port: u16, method: &str, path: &str, content_type: Option<&str>, b
     h.push(("Content-Type".to_string(), ct.to_string()));
   }
   let cl = if method == "GET" && body.is_empty() { None } else { Some(body.len()) };
-  exchange(port, &SendPlan { first: request_bytes(method, path, &h, body, cl), wait_ms: 20_000, ..Default::default() })
+  exchange(port, &SendPlan { first: request_bytes(method, path, &h, body, cl), wait_ms: 60_000, ..Default::default() })
 }
 
 pub fn post_json(port: u16, path: &str, body: &serde_json::Value) -> Resp {
@@ -320,7 +320,7 @@ impl Server {
       let task = runtime().spawn(async move { searchlite_http::run(args).await.map_err(|e| format!("{e:#}")) });
       let t0 = Instant::now();
       let mut up = false;
-      while t0.elapsed() < Duration::from_secs(10) {
+      while t0.elapsed() < Duration::from_secs(60) {
         if task.is_finished() {
           break;
         }
@@ -344,7 +344,7 @@ impl Server {
         }
       } else {
         task.abort();
-        last = "server did not start accepting within 10 s".into();
+        last = "server did not start accepting within 60 s".into();
       }
     }
     Err(last)
